@@ -76,13 +76,37 @@ func (p histProp) Units(tier string, seed int64) ([]core.Unit, error) {
 
 var faultKinds = []string{"ERR", "ERR", "PANIC", "SHORTWRITE", "ENOSPC_FROM", "CRASH", "CRASH", "CRASH"}
 
+// Swarmer is implemented by stores whose step alphabet falls into families. Two histories out of
+// three are then drawn from a random subset of one or two families only (swarm testing: a history
+// that spends all its steps on one kind of state reaches deeper sequences of that kind - three adds
+// and the removal of the middle one - than a uniform mix of everything ever does).
+type Swarmer interface {
+	Families() []string
+	Family(op string) string
+}
+
 // generate draws one history from rng; the model is only used to bias the generator.
 func (p histProp) generate(rng *rand.Rand, doc string, faulty bool, maxLen int, m Model, aux string) History {
-	h := History{Doc: doc}
+	h := History{Doc: doc, MapSalt: rng.Uint64()}
 	n := 1 + rng.IntN(maxLen)
 	m = m.Clone()
+	var only map[string]bool
+	sw, _ := p.store.(Swarmer)
+	if sw != nil && rng.IntN(3) != 0 {
+		ff := sw.Families()
+		only = map[string]bool{ff[rng.IntN(len(ff))]: true}
+		if rng.IntN(2) == 0 {
+			only[ff[rng.IntN(len(ff))]] = true
+		}
+		if n < maxLen && rng.IntN(2) == 0 {
+			n = maxLen/2 + 1 + rng.IntN(maxLen-maxLen/2) // focused histories tend to be long
+		}
+	}
 	for i := 0; i < n; i++ {
 		s := p.store.Gen(rng, m, aux)
+		for try := 0; only != nil && !only[sw.Family(s.Op)] && try < 400; try++ {
+			s = p.store.Gen(rng, m, aux)
+		}
 		if faulty && rng.IntN(4) == 0 {
 			s.Fault = &StepFault{Kind: faultKinds[rng.IntN(len(faultKinds))], N: 1 + rng.IntN(40)}
 		}
